@@ -954,6 +954,11 @@ def gen_macro_scenario(rng, prof=None, tier='quick'):
     wide['endian'] = 'little' if e == 'big' else 'big'
     wide['suffix'] = (0x1234, 16)
     isa['instrs']['swp2'] = [wide]
+    # range-checked codes whose bounds include 0: a bound of exactly 0 is a bound like any other
+    isa['sets']['nb1'] = [{'id': 'nbp', 'kind': 'numeric_bytecode', 'code': None, 'pos': 'suffix', 'code_size': 3, 'min': 0, 'max': 7}]
+    isa['sets']['nb2'] = [{'id': 'nbn', 'kind': 'numeric_bytecode', 'code': None, 'pos': 'suffix', 'code_size': 4, 'min': -8, 'max': 0}]
+    isa['instrs']['add3b'] = [variant(0x1A, 5, sets_parser(['nb1']))]
+    isa['instrs']['cmpq2'] = [variant(0xB, 4, sets_parser(['nb2']))]
     ph = ('ph', 'ARG', 0)
     forms = [[ph], [ph, ('tok', '*', t_op('OMul')), ('tok', '2', t_num(2))], [('tok', '3', t_num(3)), ('tok', '*', t_op('OMul')), ph],
              [ph, ('tok', '+', t_op('OAdd')), ('tok', '1', t_num(1))], [('tok', '9', t_num(9)), ('tok', '-', t_op('OSub')), ph],
@@ -987,7 +992,7 @@ def gen_macro_scenario(rng, prof=None, tier='quick'):
             return Txt(n, [t_lab(n)])
         return Txt(f'{n}+{b}', [t_lab(n), t_op('OAdd'), t_num(b)])
     kinds = ['dbl'] * 5 + ['mac1'] * 2 + ['mac2'] * 2 + ['swp', 'mac3', 'mac3', 'add3', 'add3', 'cmpq', 'cmpq', 'mac4', 'mac4', 'mac5', 'mac5',
-                                                          'ldx', 'tst', 'psh2', 'psh2', 'mac6', 'mac6', 'jmpz2', 'jmpz2', 'swp2']
+                                                          'ldx', 'tst', 'psh2', 'psh2', 'mac6', 'mac6', 'jmpz2', 'jmpz2', 'swp2', 'add3b', 'add3b', 'add3b', 'cmpq2', 'cmpq2', 'cmpq2']
     # a program is rejected as a whole by one unacceptable statement: at most one statement kind that may be unacceptable
     risky_left = 1 if rng.random() < 0.5 else 0
     for _ in range(rng.randint(2, 7)):
@@ -1038,6 +1043,12 @@ def gen_macro_scenario(rng, prof=None, tier='quick'):
         elif k == 'swp2':
             rg = rng.choice(['a', 'b'])
             stmts.append(['asm', 'swp2', [[rg, [t_lab(rg)]]]])
+        elif k in ('add3b', 'cmpq2'):
+            good, bad = ([0, 7, 3], [-1, 8, -4]) if k == 'add3b' else ([-8, 0, -1], [1, 7, 15, -9])
+            v = rng.choice(good + (bad if risky_left else []))
+            risky_left = 0 if v in bad else risky_left
+            x = x_num(rng, v)
+            stmts.append(['asm', k, [[x.text, x.toks]]])
         elif k == 'psh2':
             inside = [tbl[1], tbl[2], tbl[1] + 5]
             outside = [tbl[1] - 1, tbl[2] + 1, origin + 0x100 + 0x45, origin + 2]
